@@ -395,6 +395,27 @@ theorem keys_first_occurrence (ks1 ks2 : List Key) :
     ks1.foldl pushKey [] <+: (ks1 ++ ks2).foldl pushKey [] := by
   rw [List.foldl_append]; exact foldl_pushKey_prefix ks2 _
 
+/-! ### one object, many accesses -/
+
+/-- **History independence**: on one `BeaconConfig` object (model with the four cache attributes, starting empty),
+the answer of every access in any sequence of accesses — the four cached properties, `settings_map` with any
+arguments, `setting_enums`, `max_setting_enum`, `settings_tuple` — equals the answer of that single access on a
+fresh object; in particular `settings_map` never depends on what a property cached before. -/
+theorem views_history_independent (content : Nat → Val → Py Val) (ss : List Setting) (ops : List Op) :
+    (runHistory content ss {} ops).1 = ops.map (answer content ss) :=
+  (runHistory_valid content ss ops {} (Cache.valid_empty content ss)).1
+
+/-- the same from any cache state reachable by accesses, and the cache only ever holds fresh-computation results -/
+theorem cache_stays_valid (content : Nat → Val → Py Val) (ss : List Setting) (ops ops' : List Op) :
+    (runHistory content ss (runHistory content ss {} ops).2 ops').1 = ops'.map (answer content ss) :=
+  (runHistory_valid content ss ops' _ (runHistory_valid content ss ops {} (Cache.valid_empty content ss)).2).1
+
+/-- a cached property is filled exactly by a successful access to it (a raising pretty function leaves `None`) -/
+theorem cache_filled_iff (content : Nat → Val → Py Val) (ss : List Setting) :
+    (access content ss {} .settings).2.settings = (settingsMap content ss .name true true).toOption ∧
+    (access content ss {} .rawSettings).2.rawSettings = (settingsMap content ss .name false true).toOption := by
+  constructor <;> (simp only [access, cachedView]; split <;> simp_all [Except.toOption])
+
 /-! ### the hypotheses are satisfiable / concrete instances -/
 
 /-- a configuration with a SHORT, a deprecated 36, an INT, an empty PTR and an unknown index -/
@@ -428,6 +449,10 @@ example : iterSettings (serializeOne sampleUA ++ ([66, 67] ++ 0 :: [0, 1, 2])) =
 example : settingsMap (fun i v => .ok (.opaque i v)) sample .const true true =
     .ok [(.const 1, .int 443), (.const 36, .int 1), (.const 3, .int 60000),
          (.const 9, .opaque 9 (.bytes [])), (.const 75, .bytes [7])] := by decide
+example : (runHistory (fun i v => .ok (.opaque i v)) sample {} [.rawSettings, .settingsMap .name false false]).1 =
+    [answer (fun i v => .ok (.opaque i v)) sample .rawSettings,
+     answer (fun i v => .ok (.opaque i v)) sample (.settingsMap .name false false)] :=
+  views_history_independent _ _ _
 example : nameKey false 75 = ascii "BeaconSetting_75" := by decide +kernel
 example : maxSettingEnum sample = .ok 75 ∧ maxSettingEnum [] = .error .valueError := by decide
 
